@@ -117,12 +117,16 @@ func genC20(e *emitter, tier string, seed int64) {
 		// the point is left without any field; only tags remain
 		{"a.p": "drop_key(message)\ndrop_key(usage)\ndrop_key(n)\ndrop_key(ok)\ndrop_key(s)\n"},
 		{"a.p": "set_tag(only, \"t\")\ndrop_key(message)\n"},
+		// (round 7: a time with a sub-second part; a call written with blanks before its parenthesis)
+		{"a.p": "add_key(ts, \"2021-03-04T05:06:07.250Z\")\ndefault_time(ts)\n"},
+		{"a.p": "add_key(a, 1)\nuse (\"b.ppl\")\nuse\t(\"b.ppl\")\nadd_key(c, 3)\n", "b.ppl": "set_measurement(\"spaced\")\nset_tag(bt, \"1\")\n"},
 		{"a.p": "for x in [1, 2, 3] {\n  add_key(last, x)\n}\nif last == 3 {\n  set_measurement(\"three\")\n}\n"},
 	}
 	inputs := []struct{ typ, data string }{
 		{"text", "hello 42"}, {"text", ""}, {"text", "multi\nline é"},
 		{"lineprotocol", "cpu,host=h1,region=r usage=1.5,n=3i,ok=true,s=\"str\" 1600000000000000000"},
 		{"lineprotocol", "m2 message=\"abc 7\" 5"},
+		{"lineprotocol", "cpu,host=h3 v=2i 1600000000123456789"}, {"lineprotocol", "cpu v=2i 1600000000000000001"},
 		{"lineprotocol", "not line protocol"},
 		// text is bytes: an input that is not valid UTF-8 becomes `message` as it is
 		{"text", "caf\xe9 au lait"}, {"text", "\xff\xfe"},
